@@ -1,5 +1,6 @@
 """C06 — decided on the sequential tower model (see tools/tower_common.py, DESIGN.md section 5)."""
 import tower_common
+from props import c10
 
 TARGETS = ["theories/Properties/C06.v"]
 MON = {"C06"}
@@ -7,7 +8,11 @@ KNOWN = {}
 
 
 def run(ctx):
-    return tower_common.check(ctx, "C06", TARGETS, MON, KNOWN)
+    def extra(ctx):
+        # the gate is evaluated while blocks move the heights: requests racing with the block at the expiry height
+        # (controlled schedules on the real tower; a reply the thread programs do not predict is a broken tie here)
+        c10.conc_probe(ctx, "C06", set(), case_filter=("add", "get", "expiry"))
+    return tower_common.check(ctx, "C06", TARGETS, MON, KNOWN, extra_run=extra)
 
 
 def replay(ctx, path):
